@@ -228,6 +228,10 @@ func OracleCancel(prop string, v *View) []Violation {
 			out = append(out, viol(prop, "plugin-not-reached", "", "plugin %s (deployment %d) was executing when the caller cancelled but saw neither a cancel signal nor a shutdown before Execute returned", d.src, n))
 		}
 	}
+	// every plugin deployed for the run (executing or not) is shut down when the cancelled run returns
+	if len(c.OpenAtReturn) > 0 {
+		out = append(out, viol(prop, "plugin-left-running", "deployed, not executing", "the cancelled run returned while deployments %v were still open (plugins left running)", c.OpenAtReturn))
+	}
 	// (3) the result: an error, or an output whose dependencies were genuinely produced
 	out = append(out, OracleObservedResult(prop, v)...)
 	return out
